@@ -20,7 +20,10 @@
 (***************************************************************************)
 EXTENDS Integers, Sequences, FiniteSets, TLC
 
-CONSTANTS NE, P, SyncCons, MaxOut, Legacy
+CONSTANTS NE, P, SyncCons, MaxOut, Legacy,
+          EarlySlot   \* TRUE (the tree): queue.get() frees the slot although the task still runs, so parallelism + 1
+                      \* functions can be evaluated at once (known finding F08, pinned by test_map_async_tornado);
+                      \* FALSE: the awaited task counts against the limit
 
 VARIABLES arrived, ins, q, running, finished, wpc, cur, active, delivered, consBusy, emitDone, inserted, rc, fired
 vars == <<arrived, ins, q, running, finished, wpc, cur, active, delivered, consBusy, emitDone, inserted, rc, fired>>
@@ -45,7 +48,7 @@ Arrive(e) ==
 Insert(e) ==
     /\ e \in Range(ins)
     /\ Legacy \/ e = Head(ins)                                   \* the lock admits jobs in arrival order
-    /\ IF Legacy THEN Len(q) < P ELSE Len(q) + active < P
+    /\ IF Legacy \/ EarlySlot THEN Len(q) < P ELSE Len(q) + active < P
     /\ ins' = Without(ins, e) /\ q' = Append(q, e) /\ running' = running \cup {e}
     /\ inserted' = [inserted EXCEPT ![e] = TRUE]
     /\ rc' = IF Legacy THEN [rc EXCEPT ![e] = @ + 1] ELSE rc
